@@ -19,10 +19,11 @@
 package didnuts
 
 import (
+	"crypto"
+	"encoding/base64"
 	"encoding/json"
 	"errors"
 	"fmt"
-	"github.com/lestrrat-go/jwx/v2/jwk"
 	ssi "github.com/nuts-foundation/go-did"
 	"github.com/nuts-foundation/go-did/did"
 	"github.com/nuts-foundation/nuts-node/network/transport"
@@ -70,7 +71,52 @@ func (v verificationMethodValidator) Validate(document did.Document) error {
 			return fmt.Errorf("invalid verificationMethod: %w", err)
 		}
 	}
+	// Verification methods can also be embedded in a verification relationship (instead of being referenced by ID).
+	// These are verification methods of the document as well, so they must adhere to the same rules.
+	embedded := make(map[string]*did.VerificationMethod, 0)
+	for _, relationships := range []did.VerificationRelationships{
+		document.Authentication,
+		document.AssertionMethod,
+		document.KeyAgreement,
+		document.CapabilityInvocation,
+		document.CapabilityDelegation,
+	} {
+		for _, relationship := range relationships {
+			method := relationship.VerificationMethod
+			if method == nil {
+				return errors.New("invalid verificationMethod: verification relationship without verificationMethod")
+			}
+			// the relationship refers to (or repeats) a verification method that has been checked already
+			other := document.VerificationMethod.FindByID(method.ID)
+			if other == nil {
+				other = embedded[method.ID.String()]
+			}
+			if other != nil {
+				if !sameVerificationMethod(other, method) {
+					return errors.New("invalid verificationMethod: ID must be unique")
+				}
+				continue
+			}
+			if err := verifyDocumentEntryID(document.ID, method.ID.URI(), knownKeyIds); err != nil {
+				return fmt.Errorf("invalid verificationMethod: %w", err)
+			}
+			if err := v.verifyThumbprint(method); err != nil {
+				return fmt.Errorf("invalid verificationMethod: %w", err)
+			}
+			embedded[method.ID.String()] = method
+		}
+	}
 	return nil
+}
+
+// sameVerificationMethod returns true if both verification methods are the same object or have the same contents.
+func sameVerificationMethod(a *did.VerificationMethod, b *did.VerificationMethod) bool {
+	if a == b {
+		return true
+	}
+	aJSON, _ := json.Marshal(a)
+	bJSON, _ := json.Marshal(b)
+	return string(aJSON) == string(bJSON)
 }
 
 func (v verificationMethodValidator) verifyThumbprint(method *did.VerificationMethod) error {
@@ -78,8 +124,16 @@ func (v verificationMethodValidator) verifyThumbprint(method *did.VerificationMe
 	if err != nil {
 		return fmt.Errorf("unable to get JWK: %w", err)
 	}
-	_ = jwk.AssignKeyID(keyAsJWK)
-	if keyAsJWK.KeyID() != method.ID.Fragment {
+	if keyAsJWK == nil {
+		return errors.New("missing publicKeyJwk")
+	}
+	// Calculate the key ID from the key material. Do not use jwk.AssignKeyID(): it keeps a 'kid' that is already present
+	// in the JWK, which would allow the publisher to choose the ID.
+	thumbprint, err := keyAsJWK.Thumbprint(crypto.SHA256)
+	if err != nil {
+		return fmt.Errorf("unable to calculate key thumbprint: %w", err)
+	}
+	if base64.RawURLEncoding.EncodeToString(thumbprint) != method.ID.Fragment {
 		return errors.New("key thumbprint does not match ID")
 	}
 	return nil
